@@ -139,6 +139,16 @@ def derivations(svg):
         "x+str": lambda x: (x + "L 9 9") if isinstance(x, (svg.Path, svg.PathSegment, svg.Subpath)) else NotImplemented,
         "~x": lambda x: ~x if isinstance(x, svg.Matrix) else NotImplemented,
         "x@M": lambda x: (x @ Mx()) if isinstance(x, (svg.Matrix, svg.Shape)) else NotImplemented,
+        # neutral elements of the arithmetic (the inputs that invite "nothing to do, return the operand")
+        "zero+x": lambda x: (svg.Length(0) + x) if isinstance(x, svg.Length) else NotImplemented,
+        "0mm+x": lambda x: (svg.Length("0mm") + x) if isinstance(x, svg.Length) else NotImplemented,
+        "x+zero": lambda x: (x + svg.Length(0)) if isinstance(x, svg.Length) else NotImplemented,
+        "x-zero": lambda x: (x - svg.Length("0%")) if isinstance(x, svg.Length) else NotImplemented,
+        "x*1": lambda x: (x * 1) if isinstance(x, svg.Length) else NotImplemented,
+        "x/1": lambda x: (x / 1) if isinstance(x, svg.Length) else NotImplemented,
+        "I*x": lambda x: (svg.Matrix() * x) if isinstance(x, svg.Matrix) else NotImplemented,
+        "p+0": lambda x: (x + svg.Point(0, 0)) if isinstance(x, svg.Point) else NotImplemented,
+        "p*1": lambda x: (x * 1) if isinstance(x, svg.Point) else NotImplemented,
         "-x": lambda x: -x if isinstance(x, svg.Length) else NotImplemented,
         "x+l": lambda x: (x + svg.Length("1in")) if isinstance(x, svg.Length) else NotImplemented,
         "segments": lambda x: list(x.segments(False)) if isinstance(x, svg.Shape) and not isinstance(x, svg.Path) else NotImplemented,
